@@ -109,3 +109,22 @@ WITNESS = {
     ("C06", "KF1"): _kf1_c06,
     ("C07", "KF1"): _kf1_c07,
 }
+
+
+def _kf2_c09():
+    """Replays the recorded history: as_expression() of a ~90-node expression over shared sub-expressions,
+    after as_expression() calls on those sub-expressions; truthy while the shapes still differ."""
+    import json
+    import os
+    from . import history as H
+    path = os.path.join(os.path.dirname(os.path.dirname(os.path.abspath(__file__))), "findings", "KF2-witness.json")
+    with open(path) as f:
+        case = json.load(f)
+    try:
+        w = H.replay_history("c09", case["history"])
+    except H.Mismatch:
+        return True
+    return w.known_kf2 > 0
+
+
+WITNESS[("C09", "KF2")] = _kf2_c09
